@@ -724,6 +724,113 @@ def size_thresholds(src):
     return out
 
 
+# ------------------------------------------------------------------ closed formulas of method bodies
+
+class Formula:
+    """arithmetic expression (names, int / float literals, + - * /, float(x), np.arange(N, dtype=float) as the level
+    variable) -> Coq text over Q; literals become the exact rational of the value the code computes with"""
+
+    def __init__(self, src, env, fname):
+        self.src, self.env, self.fname = src, dict(env), fname
+        self.levels = None
+
+    def q(self, e):
+        if isinstance(e, ast.Constant) and type(e.value) in (int, float):
+            return qlit(Fraction(e.value))
+        if isinstance(e, ast.Name):
+            if e.id in self.env:
+                return self.env[e.id]
+            bail(e, "%s: name %s is not part of the formula" % (self.fname, e.id))
+        if isinstance(e, ast.BinOp) and isinstance(e.op, (ast.Add, ast.Sub, ast.Mult, ast.Div)):
+            op = {ast.Add: "+", ast.Sub: "-", ast.Mult: "*", ast.Div: "/"}[type(e.op)]
+            return "(%s %s %s)" % (self.q(e.left), op, self.q(e.right))
+        if isinstance(e, ast.Call) and isinstance(e.func, ast.Name) and e.func.id == "float" and len(e.args) == 1:
+            return self.q(e.args[0])
+        if (isinstance(e, ast.Call) and ast.get_source_segment(self.src, e.func) == "np.arange" and len(e.args) == 1
+                and isinstance(e.args[0], ast.Constant) and type(e.args[0].value) is int
+                and [(k.arg, ast.get_source_segment(self.src, k.value)) for k in e.keywords] == [("dtype", "float")]):
+            if self.levels not in (None, e.args[0].value):
+                bail(e, "%s: two different level counts" % self.fname)
+            self.levels = e.args[0].value
+            return "i"
+        bail(e, "%s: unrecognised formula %r" % (self.fname, ast.get_source_segment(self.src, e)))
+
+
+def body_formulas(src):
+    tree = ast.parse(src)
+    fns = {n.name: n for n in tree.body if isinstance(n, ast.FunctionDef)}
+    out = []
+    # ---- get_background_threshold: nbins, the two cutoff assignments, the returned value
+    fn = fns.get("get_background_threshold")
+    if fn is None:
+        raise Untranslatable("get_background_threshold not found")
+    env = {"index": "index", "img_min": "img_min", "img_max": "img_max"}
+    nb = [n for n in ast.walk(fn) if isinstance(n, ast.Assign) and len(n.targets) == 1
+          and isinstance(n.targets[0], ast.Name) and n.targets[0].id == "nbins"]
+    if len(nb) != 1 or not (isinstance(nb[0].value, ast.Constant) and type(nb[0].value.value) is int):
+        bail(fn, "get_background_threshold: nbins is not a single integer literal")
+    nbins = nb[0].value.value
+    env["nbins"] = qlit(Fraction(nbins))
+    f = Formula(src, env, "get_background_threshold")
+    cut = [n for n in fn.body if isinstance(n, ast.Assign) and len(n.targets) == 1
+           and isinstance(n.targets[0], ast.Name) and n.targets[0].id == "cutoff"]
+    if not cut:
+        bail(fn, "get_background_threshold: no cutoff assignment at top level")
+    for a in cut:
+        f.env["cutoff"] = f.q(a.value)
+    last = fn.body[-1]
+    if not isinstance(last, ast.Return):
+        bail(fn, "get_background_threshold does not end in a return")
+    hist = [n for n in ast.walk(fn) if isinstance(n, ast.Call)
+            and ast.get_source_segment(src, n.func) == "scipy.ndimage.histogram"]
+    if len(hist) != 1 or len(hist[0].args) != 4 or not (isinstance(hist[0].args[3], ast.Name) and hist[0].args[3].id == "nbins"):
+        bail(fn, "get_background_threshold: histogram is not built with nbins bins")
+    out += ["(* get_background_threshold: value returned for the arg-max bin `index` of the nbins-bin histogram *)",
+            "Definition background_nbins : Z := %d." % nbins,
+            "Definition background_value (index img_min img_max : Q) : Q :=",
+            "  %s." % f.q(last.value), ""]
+    # ---- get_kapur_threshold: the histogram levels
+    fn = fns.get("get_kapur_threshold")
+    if fn is None:
+        raise Untranslatable("get_kapur_threshold not found")
+    hv = [n for n in fn.body if isinstance(n, ast.Assign) and len(n.targets) == 1
+          and isinstance(n.targets[0], ast.Name) and n.targets[0].id == "histogram_values"]
+    if not hv:
+        bail(fn, "get_kapur_threshold: histogram_values not found")
+    f = Formula(src, {"min_log_image": "lo", "max_log_image": "hi"}, "get_kapur_threshold")
+    level = f.q(hv[0].value)
+    hist = [n for n in ast.walk(fn) if isinstance(n, ast.Call)
+            and ast.get_source_segment(src, n.func) == "scipy.ndimage.histogram"]
+    if (f.levels is None or len(hist) != 1 or len(hist[0].args) != 4
+            or not (isinstance(hist[0].args[3], ast.Constant) and hist[0].args[3].value == f.levels)):
+        bail(fn, "get_kapur_threshold: histogram bins and level count differ")
+    ret = fn.body[-1]
+    if not (isinstance(ret, ast.Return) and ast.get_source_segment(src, ret.value).replace(" ", "")
+            == "2**((histogram_values[entry]+histogram_values[entry+1])/2)"):
+        bail(fn, "get_kapur_threshold: the returned value is not 2 ** (mean of two adjacent levels)")
+    out += ["(* get_kapur_threshold: level i of the log2 histogram; the result is 2 ** (mean of two adjacent levels) *)",
+            "Definition kapur_nlevels : Z := %d." % f.levels,
+            "Definition kapur_level (i lo hi : Q) : Q :=",
+            "  %s." % level, ""]
+    # ---- get_robust_background_threshold: numeric defaults of the signature
+    fn = fns.get("get_robust_background_threshold")
+    if fn is None:
+        raise Untranslatable("get_robust_background_threshold not found")
+    names = [a.arg for a in fn.args.args]
+    defs = dict(zip(names[len(names) - len(fn.args.defaults):], fn.args.defaults))
+    items = []
+    for k in ("lower_outlier_fraction", "upper_outlier_fraction", "deviations_above_average"):
+        d = defs.get(k)
+        if not (isinstance(d, ast.Constant) and type(d.value) is float):
+            bail(fn, "get_robust_background_threshold: default of %s is not a float literal" % k)
+        items.append("(%s, %s, %s)" % (coq_string(k), coq_string(ast.get_source_segment(src, d)), qlit(Fraction(d.value))))
+    fnames = [ast.get_source_segment(src, defs[k]) if k in defs else None for k in ("average_fn", "variance_fn")]
+    out += ["(* get_robust_background_threshold: defaults *)",
+            "Definition robust_defaults : list (string * string * Q) :=", "  [" + "; ".join(items) + "].",
+            "Definition robust_default_fns : list string := [%s]." % "; ".join(coq_string(x or "?") for x in fnames), ""]
+    return out
+
+
 def translate(src, smooth_src=None, otsu_src=None):
     tree = ast.parse(src)
     fns = {n.name: n for n in tree.body if isinstance(n, ast.FunctionDef)}
@@ -782,6 +889,7 @@ def translate(src, smooth_src=None, otsu_src=None):
         "  [" + "; ".join(coq_string(d) for d in disp) + "].",
         "",
     ]
+    lines += ["Open Scope Q_scope."] + body_formulas(src) + ["Close Scope Q_scope.", ""]
     if smooth_src is not None and otsu_src is not None:
         uses = random_uses("threshold", src) + random_uses("smooth", smooth_src) + random_uses("otsu", otsu_src)
         lines += [
